@@ -34,6 +34,7 @@ class FlowRule(sym.Rule):
         self.paths = 0
         self.delegated = 0
         self.pending_roots = set()
+        self.soccc = set()
 
     def init(self, f, eng):
         # (writes: tuple of (kind, src obj), allocs: frozenset (p, recv obj), copies: frozenset (dst obj, src obj),
@@ -51,10 +52,27 @@ class FlowRule(sym.Rule):
             if self.orc.is_gch(ev.callee):
                 self.pending_roots.add((ev.callee, self.family))
             return (writes + (('delegated', None),), allocs, copies, eqs, rel)
+        if k == 'ALLOC_SOCCC' and ev.args:
+            # select_on_container_copy_construction: its result (returned into the first argument
+            # slot) is an allocator for a NEW container, not a copy of the source's allocator
+            self.soccc.add(obj_of(ev.args[0]))
+            return rs
         if k in WRITES and len(ev.args) >= 2:
             a, b = ev.args[0], ev.args[1]
             if rooted(a, THIS):
-                return (writes + ((WRITES[k], obj_of(b)),), allocs, copies, eqs, rel)
+                src = obj_of(b)
+                tainted = src in self.soccc or any(d == src and s_ in self.soccc for (d, s_) in copies)
+                if tainted and self.family in ('copy', 'move'):
+                    dk = ('R07.5', f.name)
+                    if dk not in self.reports:
+                        self.reports[dk] = Report(
+                            'R07.5', False, {'function': base_name(f.pretty), 'defect': 'assignment installs select_on_container_copy_construction (source allocator)'},
+                            'R07.5: %s: the allocator installed by the assignment is the result of select_on_container_copy_construction () '
+                            'applied to the source\'s allocator, not the source\'s allocator itself (that function is for copy CONSTRUCTION only) (%s)'
+                            % (base_name(f.pretty), self.cfg.name),
+                            {'function': f.pretty[:300], 'config': self.cfg.name, 'file': 'source/include/gch/small_vector.hpp',
+                             'where': where(ev, self.orc)})
+                return (writes + ((WRITES[k], src),), allocs, copies, eqs, rel)
             if k == 'ALLOC_SWAP' and rooted(b, THIS):
                 return (writes + (('swap', obj_of(a)),), allocs, copies, eqs, rel)
             return rs
@@ -187,6 +205,7 @@ def analyse_tu(eng, cfg):
             n += 1
             continue
         rule.family = fam
+        rule.soccc = set()
         n += 1
         eng.walk(f, [rule])
     done = set()
